@@ -349,8 +349,19 @@ fn apply_one(p: &mut Parts, m: &Model, f: &TransportFault) -> bool {
                 3 => {
                     // wrong value marker
                     let mut t = META_KEY.to_vec();
-                    t.extend_from_slice(&[b'U', 1, b'a', *rng.pick(&[b'd', b'D', b'i', b'L', b'[', b'Z', b'T', 0, 255])]);
-                    t.extend_from_slice(&[1, 2, 3, 4, b'}', b'}']);
+                    t.extend_from_slice(&[b'U', 1, b'a', *rng.pick(&[b'd', b'D', b'i', b'L', b'[', b'Z', b'T', b'I', b'u', b'H', b'C', 0, 255])]);
+                    // whatever a reader that knows this marker would decode next: random, NaN / infinity patterns, zeros
+                    match rng.below(4) {
+                        0 => t.extend_from_slice(&[0xFF; 8]),
+                        1 => t.extend_from_slice(&[0x7F, 0xF0, 0, 0, 0, 0, 0, 0]),
+                        2 => t.extend_from_slice(&[0x7F, 0x80, 0, 0, 0x7F, 0xC0, 0, 1]),
+                        _ => {
+                            let mut b = [0u8; 8];
+                            rng.fill(&mut b);
+                            t.extend_from_slice(&b);
+                        }
+                    }
+                    t.extend_from_slice(&[b'}', b'}']);
                     p.tail = t;
                 }
                 4 => {
